@@ -238,4 +238,4 @@ def run(shard):
 
     import code_data
     holder["CodeData"] = code_data.CodeData
-    D.drive(shard, "C09", on_decoded, "C09.decoded")
+    D.drive(shard, "C09", on_decoded, "C09.decoded", variants=3)
